@@ -207,9 +207,7 @@ func sIdx(off, i string) string {
 		return i
 	}
 	if _, ok := litVal(off); ok {
-		if _, ok2 := litVal(i); ok2 {
-			return sAdd(off, i)
-		}
+		return sAdd(off, i) // a literal offset normalises the same way on both sides of a match
 	}
 	if n, ok := litVal(i); ok && n == 0 {
 		return off
